@@ -396,6 +396,17 @@ func propC05(c *Ctx) {
 						}
 					}
 					if nLen != 1 || other {
+						// a second spelling the rule reads: a counter that steps once per place where two
+						// neighbours of the SORTED dependency names differ. It counts at most (different names - 1),
+						// so its start plus whatever is added afterwards must reach 1 (seed C05-D started at 0)
+						if init, sl, isRun := runBoundaryCounter(aff, l); isRun && fromDepsVal(sl) {
+							if init < 1 {
+								verdict, detail = false, fmt.Sprintf("the expected count steps once per change of name in the sorted dependency list and starts at %d: it is at most the number of different names %+d, so with %d missing position(s) the step is not held back", init, init-1, 1-init)
+							} else {
+								detail = "the expected count is a run counter over the sorted dependency names (start >= 1): exactness not decided"
+							}
+							continue
+						}
 						detail = "the expected count is not written as the size of a collection: not decided"
 						continue
 					}
@@ -872,3 +883,141 @@ func sameAddr(a, b ssa.Value) bool {
 func nonNilErrorMarker(fn *ssa.Function) ssa.Value { return errMarker }
 
 var errMarker = &ssa.Alloc{}
+
+// runBoundaryCounter reads l as  k + n  where n is a loop-carried counter that only ever grows by one, and
+// only on the outcome "differ" of a comparison of two neighbouring elements (indices one apart) of a slice that
+// is handed to a sorting routine of package slices/sort in the same function. Such a counter is bounded by its
+// start value plus the number of places where neighbours of the sorted slice differ, i.e. by
+// start + (number of different elements - 1) on a non-empty slice. Reports start+k and the slice.
+func runBoundaryCounter(aff *affEnv, l lin) (init int64, slice ssa.Value, ok bool) {
+	var phi *ssa.Phi
+	for a, k := range l.t {
+		if k == 0 {
+			continue
+		}
+		p, isPhi := aff.vals[a].(*ssa.Phi)
+		if k != 1 || !isPhi || phi != nil {
+			return 0, nil, false
+		}
+		phi = p
+	}
+	if phi == nil {
+		return 0, nil, false
+	}
+	// leaves of the counter: through the joins inside the loop body down to constants, the counter itself, or counter+1
+	var incs []*ssa.BinOp
+	nInit := 0
+	seen := map[ssa.Value]bool{}
+	bad := false
+	var leaves func(v ssa.Value, top bool)
+	leaves = func(v ssa.Value, top bool) {
+		v = stripNum(stripConv(v))
+		if v == ssa.Value(phi) && !top {
+			return
+		}
+		if seen[v] {
+			return
+		}
+		seen[v] = true
+		switch x := v.(type) {
+		case *ssa.Phi:
+			for _, e := range x.Edges {
+				leaves(e, false)
+			}
+		case *ssa.Const:
+			if c, isInt := constInt(x); isInt && nInit == 0 {
+				init, nInit = c, 1
+			} else {
+				bad = true
+			}
+		case *ssa.BinOp:
+			one, isOne := constInt(x.Y)
+			if x.Op == token.ADD && isOne && one == 1 && reachesPhi(x.X, phi, 0) {
+				incs = append(incs, x)
+			} else {
+				bad = true
+			}
+		default:
+			bad = true
+		}
+	}
+	leaves(phi, true)
+	if bad || nInit != 1 || len(incs) == 0 {
+		return 0, nil, false
+	}
+	fn := phi.Parent()
+	for _, inc := range incs {
+		// the block of the increment is entered only on the "differ" outcome of a neighbour comparison
+		blk := inc.Block()
+		if len(blk.Preds) != 1 {
+			return 0, nil, false
+		}
+		pred := blk.Preds[0]
+		iff, isIf := pred.Instrs[len(pred.Instrs)-1].(*ssa.If)
+		if !isIf {
+			return 0, nil, false
+		}
+		cmp, isCmp := stripConv(iff.Cond).(*ssa.BinOp)
+		if !isCmp {
+			return 0, nil, false
+		}
+		onTrue := pred.Succs[0] == blk
+		if !(cmp.Op == token.NEQ && onTrue) && !(cmp.Op == token.EQL && !onTrue) {
+			return 0, nil, false
+		}
+		s1, i1, ok1 := elemOf(cmp.X)
+		s2, i2, ok2 := elemOf(cmp.Y)
+		if !ok1 || !ok2 || stripConv(s1) != stripConv(s2) {
+			return 0, nil, false
+		}
+		d := aff.Of(i1).sub(aff.Of(i2))
+		if !linEq(d, konst(1)) && !linEq(d, konst(-1)) {
+			return 0, nil, false
+		}
+		if slice != nil && slice != stripConv(s1) {
+			return 0, nil, false
+		}
+		slice = stripConv(s1)
+	}
+	sorted := false
+	allInstrs(fn, func(in ssa.Instruction) {
+		call, isCall := in.(*ssa.Call)
+		if !isCall || len(call.Call.Args) == 0 || stripConv(call.Call.Args[0]) != slice {
+			return
+		}
+		cal := call.Call.StaticCallee()
+		if cal == nil {
+			return
+		}
+		if o := cal.Origin(); o != nil {
+			cal = o
+		}
+		if cal.Pkg == nil {
+			return
+		}
+		switch cal.Pkg.Pkg.Path() + "." + cal.Name() {
+		case "slices.Sort", "sort.Strings", "slices.SortFunc", "slices.SortStableFunc", "sort.Sort", "sort.Stable":
+			sorted = true
+		}
+	})
+	if !sorted {
+		return 0, nil, false
+	}
+	return init + l.c, slice, true
+}
+
+func reachesPhi(v ssa.Value, phi *ssa.Phi, d int) bool {
+	v = stripNum(stripConv(v))
+	if v == ssa.Value(phi) {
+		return true
+	}
+	if p, ok := v.(*ssa.Phi); ok && d < 4 {
+		for _, e := range p.Edges {
+			if !reachesPhi(e, phi, d+1) {
+				return false
+			}
+		}
+		return len(p.Edges) > 0
+	}
+	return false
+}
